@@ -76,6 +76,12 @@ func refKind(t int) directive.Enumeration {
 		return directive.Path
 	case tRequestObj:
 		return directive.Request
+	case tPathX, tPathY:
+		return directive.Path
+	case tGetXYZ:
+		return directive.Get
+	case tURLParam2:
+		return directive.URL
 	case tParams:
 		return directive.Params
 	case tResult:
